@@ -768,6 +768,15 @@ def m_res_expect(interp, path, args, ret_ty, callee):
     })
 
 
+@model(r"^Option::<([iu](8|16|32|64|128|size)|bool)>::unwrap_or_default$", "payload, or 0 / false for None")
+def m_opt_unwrap_or_default(interp, path, args, ret_ty, callee):
+    e = args[0]
+    ty = re.match(r"^Option::<(\w+)>", canon(callee)).group(1)
+    dflt = BoolV(False) if ty == "bool" else IntV(0, ty)
+    return fork_enum(interp, path, e, {1: lambda p: [Outcome(p, "ret", e.variants[1][0])],
+                                       0: lambda p: [Outcome(p, "ret", dflt)]})
+
+
 @model(r"^Option::<.*>::unwrap_or$", "payload or default")
 def m_opt_unwrap_or(interp, path, args, ret_ty, callee):
     e = args[0]
